@@ -210,8 +210,14 @@ fn exercise_check(case: &Value, stats: &mut Stats) -> CheckResult {
         let _ = cell_attackers(&b, sq_to_lib(s), owlchess::Color::White);
         let _ = cell_attackers(&b, sq_to_lib(s), owlchess::Color::Black);
     }
+    // text output of the position (longest-text positions are among the sources): no out-of-range write, and the right text
+    let text = b.as_fen();
+    ensure!(text == r.fen() && b.to_string() == text && b.raw().to_string() == text, "FEN text {:?} differs from the reference text {:?}", text, r.fen());
+    stats.label_if(text.len() >= 85, "fen_text>=85_bytes");
+    let _ = (format!("{:?}", b), b.pretty(owlchess::board::PrettyStyle::Ascii).to_string(), b.pretty(owlchess::board::PrettyStyle::Utf8).to_string());
     let mut cur = b.clone();
     for m in sl.iter() {
+        let _ = (m.to_string(), format!("{:?}", m));
         let _ = m.is_semilegal(&b);
         let u = unsafe { owlchess::moves::make_move_unchecked(&mut cur, *m) };
         let _ = cur.is_opponent_king_attacked();
@@ -233,8 +239,9 @@ fn exercise_check(case: &Value, stats: &mut Stats) -> CheckResult {
 fn gen_heavy_case(cur: &mut crate::gen::Cursor) -> Value {
     // half of the cases come from the heavy sources (many queens / dense / seeds with mutations)
     use crate::gen::positions::*;
-    let sel = cur.below(4);
+    let sel = cur.below(5);
     let (p, src) = match sel {
+        4 => gen_position_from(cur, 18),
         0 => gen_position_from(cur, 9),
         1 => gen_position_from(cur, 1),
         2 => {
@@ -360,9 +367,9 @@ pub fn property() -> Property {
         id: "C19",
         rule: "(a) maximise: simulated annealing with restarts (16 deterministic chains seeded from VERIF_SEED, relocate/retype/add/remove/swap \
                men) over valid positions (12 chains: valid by the reference rules; 4 chains: whatever the library's own gate accepts), maximising semilegal::gen_all_into(Vec) (safe sink, so an overflow is counted, not executed); \
-               oracle: count <= 256 for all five generators. (b) exercise: valid positions (17 sources + heavy sources: many queens, dense, \
-               mutated maximal positions) run through every generator and query (fixed-capacity lists, attack queries for 64 squares, \
-               make/unmake of every semilegal move, SAN of every legal move); in the `checked` configuration (debug assertions + \
+               oracle: count <= 256 for all five generators. (b) exercise: valid positions (19 sources + heavy sources: many queens, dense, \
+               mutated maximal positions, longest-FEN positions) run through every generator and query (fixed-capacity lists, attack queries for 64 squares, \
+               make/unmake of every semilegal move, SAN of every legal move, FEN / Debug / pretty text of the position, which must equal the reference text, Display of every move); in the `checked` configuration (debug assertions + \
                overflow checks) an out-of-range get_unchecked / push_unchecked / unreachable_unchecked / pointer offset panics or aborts \
                and is attributed to the case. (b') append_to_full_list: the *_into generators \
                appending to a caller-supplied 256-entry MoveList until it is full must refuse (panic) rather than write past it. \
@@ -389,7 +396,7 @@ pub fn property() -> Property {
                 driver: Driver::Generated { gen: gen_heavy_case, genome_len: 192, quick: 900_000, thorough: 7_200_000 },
                 check: exercise_check,
                 configs: Configs::Both,
-                required: &["moves>=150", "in_check", "ep_mark", "castling_right"],
+                required: &["moves>=150", "in_check", "ep_mark", "castling_right", "fen_text>=85_bytes"],
                 regressions: &[],
                 exhaustive: false,
             },
